@@ -319,30 +319,43 @@ func checkHandshakeMatcher(c *Ctx) {
 			continue
 		}
 		n++
-		eqs := pathEqs(rp.Atoms)
-		var missing []string
-		for name, chk := range map[string]struct {
-			pk   func(*core.Term) bool
-			role string
-		}{"outer source = target": {isOuterSrcAddr, roles.TargetAddr}, "outer destination = local": {isOuterDstAddr, roles.LocalAddr},
-			"TCP source port = target port": {isTCPSrcPort, roles.TargetPort}, "TCP destination port = local port": {isTCPDstPort, roles.LocalPort}} {
-			if findEq(eqs, chk.pk, chk.role) == nil {
-				missing = append(missing, name)
+		// predicate helpers of the driver (a ports-match method, ...) are opened; every resulting variant must carry the checks
+		var sackD Driver
+		for _, d := range Drivers(c.P) {
+			if d.Pkg == "sack" {
+				sackD = d
 			}
 		}
-		as := flagAssignments(rp.Atoms)
-		for _, a := range as {
-			if !(a["SYN"] && a["ACK"]) {
-				missing = append(missing, "SYN and ACK set")
-				break
+		for _, av := range expandHelperAtoms(c.P, sackD, rp.Atoms, 0) {
+			vatoms := av.resolved()
+			if !core.Feasible(vatoms) {
+				continue
 			}
+			eqs := pathEqs(vatoms)
+			var missing []string
+			for name, chk := range map[string]struct {
+				pk   func(*core.Term) bool
+				role string
+			}{"outer source = target": {isOuterSrcAddr, roles.TargetAddr}, "outer destination = local": {isOuterDstAddr, roles.LocalAddr},
+				"TCP source port = target port": {isTCPSrcPort, roles.TargetPort}, "TCP destination port = local port": {isTCPDstPort, roles.LocalPort}} {
+				if findEq(eqs, chk.pk, chk.role) == nil {
+					missing = append(missing, name)
+				}
+			}
+			as := flagAssignments(vatoms)
+			for _, a := range as {
+				if !(a["SYN"] && a["ACK"]) {
+					missing = append(missing, "SYN and ACK set")
+					break
+				}
+			}
+			f1, s1 := atomTrue(vatoms, func(t *core.Term) bool { return isTransportEq(t, "LayerTypeTCP") })
+			if !(f1 && s1) {
+				missing = append(missing, "transport layer is TCP")
+			}
+			sort.Strings(missing)
+			R.Check(len(missing) == 0, "R01.8", fn+"#handshake-accept", rp.Ret.Pos(), fn, "handshake state is taken only from a SYN-ACK on the probed flow", "handshake state can be set from a packet without: "+strings.Join(missing, "; ")+" (every later SACK/ICMP match is relative to these sequence numbers)")
 		}
-		f1, s1 := atomTrue(rp.Atoms, func(t *core.Term) bool { return isTransportEq(t, "LayerTypeTCP") })
-		if !(f1 && s1) {
-			missing = append(missing, "transport layer is TCP")
-		}
-		sort.Strings(missing)
-		R.Check(len(missing) == 0, "R01.8", fn+"#handshake-accept", rp.Ret.Pos(), fn, "handshake state is taken only from a SYN-ACK on the probed flow", "handshake state can be set from a packet without: "+strings.Join(missing, "; ")+" (every later SACK/ICMP match is relative to these sequence numbers)")
 	}
 	R.Floor("R01.8:state-setting-paths", n, 1)
 }
